@@ -6,10 +6,12 @@ package c18
 import (
 	"bytes"
 	"encoding/json"
+	"flag"
 	"fmt"
 	"os"
 	"path/filepath"
 	"runtime"
+	"strconv"
 	"strings"
 	"sync"
 	"testing"
@@ -361,18 +363,73 @@ func builders() []builder {
 			})
 		}},
 		{"registry", func(rt *rapid.T) (string, []op) {
-			// read operations on the global registries and the serialization registry
-			c := aeadcase.Draw(rt)
-			k := c.K
-			if k == nil {
-				k = tk.Must(c.NewKey(tk.NoPrefix, 0))
-			}
+			// read operations on the global registries and the serialization registry, for a key of an
+			// AEAD, MAC or DAEAD type (the classes whose key types all have a key manager); what the
+			// registries hand out is USED, with the results fixed before the concurrent phase
+			typ := gen.Pick(rt, "keytype", registryTypes)
+			c := keys.ClassOf(typ)
+			info := keys.DrawTypeUsable(rt, "key", typ)
+			caseSub = append(caseSub, info.Type)
+			k := info.Key
 			ks := tk.Must(protoserialization.SerializeKey(k))
 			want := tk.Must(proto.MarshalOptions{Deterministic: true}.Marshal(ks.KeyData()))
 			url := ks.KeyData().GetTypeUrl()
 			params := k.Parameters()
 			wantTmpl := tk.Must(proto.MarshalOptions{Deterministic: true}.Marshal(tk.Must(protoserialization.SerializeParameters(params))))
-			return "registry/serialization lookups for " + c.Type, []op{
+			msg, ad := shared(gen.Bytes(rt, "msg", 100)), shared(gen.Bytes(rt, "ad", 40))
+			wantMsg := append([]byte{}, msg...)
+			// use(p, want) uses a primitive of the class: MAC / DAEAD outputs are compared with want (the
+			// output of the same route when called alone; nil = not compared), AEAD makes a round trip
+			use := func(p any, want []byte) ([]byte, error) {
+				switch c {
+				case keys.AEAD:
+					a, ok := p.(tink.AEAD)
+					if !ok {
+						return nil, fmt.Errorf("primitive is %T, not a tink.AEAD", p)
+					}
+					ct, err := a.Encrypt(msg, ad)
+					if err != nil {
+						return nil, err
+					}
+					if pt, err := a.Decrypt(ct, ad); err != nil || !bytes.Equal(pt, wantMsg) {
+						return nil, fmt.Errorf("round trip gives %s, %v", gen.Hex(pt), err)
+					}
+					return nil, nil
+				case keys.MAC:
+					m, ok := p.(tink.MAC)
+					if !ok {
+						return nil, fmt.Errorf("primitive is %T, not a tink.MAC", p)
+					}
+					tag, err := m.ComputeMAC(msg)
+					if err != nil || (want != nil && !bytes.Equal(tag, want)) {
+						return nil, fmt.Errorf("ComputeMAC gives %s, %v; alone %s", gen.Hex(tag), err, gen.Hex(want))
+					}
+					return tag, m.VerifyMAC(tag, msg)
+				default:
+					d, ok := p.(tink.DeterministicAEAD)
+					if !ok {
+						return nil, fmt.Errorf("primitive is %T, not a tink.DeterministicAEAD", p)
+					}
+					ct, err := d.EncryptDeterministically(msg, ad)
+					if err != nil || (want != nil && !bytes.Equal(ct, want)) {
+						return nil, fmt.Errorf("EncryptDeterministically gives %s, %v; alone %s", gen.Hex(ct), err, gen.Hex(want))
+					}
+					if pt, err := d.DecryptDeterministically(ct, ad); err != nil || !bytes.Equal(pt, wantMsg) {
+						return nil, fmt.Errorf("round trip gives %s, %v", gen.Hex(pt), err)
+					}
+					return ct, nil
+				}
+			}
+			wantRaw, err := use(tk.Must(registry.PrimitiveFromKeyData(ks.KeyData())), nil) // the key manager's primitive: no output prefix
+			if err != nil {
+				rt.Fatalf("%s: the key manager's primitive alone: %v", info.Desc, err)
+			}
+			wantFull, err := use(tk.Must(primitiveregistry.Primitive(k)), nil) // the full primitive: with the key's output prefix
+			if err != nil {
+				rt.Fatalf("%s: the full primitive alone: %v", info.Desc, err)
+			}
+			newTemplate := map[keys.Class]func() *tinkpb.KeyTemplate{keys.AEAD: aead.AES128GCMKeyTemplate, keys.MAC: mac.HMACSHA256Tag128KeyTemplate, keys.DAEAD: daead.AESSIVKeyTemplate}[c]
+			return "registry/serialization lookups for " + info.Desc, []op{
 				{name: "SerializeKey+ParseKey", run: func() error {
 					s2, err := protoserialization.SerializeKey(k)
 					if err != nil {
@@ -403,7 +460,7 @@ func builders() []builder {
 					}
 					return nil
 				}},
-				{name: "registry.GetKeyManager+Primitive", run: func() error {
+				{name: "registry.GetKeyManager+PrimitiveFromKeyData", run: func() error {
 					km, err := registry.GetKeyManager(url)
 					if err != nil {
 						return err
@@ -415,38 +472,49 @@ func builders() []builder {
 					if err != nil {
 						return err
 					}
-					a, ok := p.(tink.AEAD)
-					if !ok {
-						return fmt.Errorf("primitive is %T", p)
-					}
-					ct, err := a.Encrypt([]byte("x"), nil)
+					_, err = use(p, wantRaw)
+					return err
+				}},
+				{name: "registry.Primitive", run: func() error {
+					p, err := registry.Primitive(url, ks.KeyData().GetValue())
 					if err != nil {
 						return err
 					}
-					pt, err := a.Decrypt(ct, nil)
-					if err != nil || string(pt) != "x" {
-						return fmt.Errorf("round trip through registry primitive: %v", err)
-					}
-					return nil
+					_, err = use(p, wantRaw)
+					return err
 				}},
-				{name: "registry.NewKeyData", run: func() error {
-					kd, err := registry.NewKeyData(aead.AES128GCMKeyTemplate())
+				{name: "registry.NewKeyData+PrimitiveFromKeyData", run: func() error {
+					kd, err := registry.NewKeyData(newTemplate())
 					if err != nil || len(kd.GetValue()) == 0 {
 						return fmt.Errorf("NewKeyData: %v", err)
 					}
-					return nil
+					p, err := registry.PrimitiveFromKeyData(kd)
+					if err != nil {
+						return err
+					}
+					_, err = use(p, nil)
+					return err
 				}},
 				{name: "primitiveregistry.Primitive", run: func() error {
-					_, err := primitiveregistry.Primitive(k)
+					p, err := primitiveregistry.Primitive(k)
+					if err != nil {
+						return err
+					}
+					_, err = use(p, wantFull)
 					return err
 				}},
 			}
 		}},
 		{"alltypes", func(rt *rapid.T) (string, []op) {
 			// every key type and parameter combination of the key generator through its class factory
-			c := rapid.SampledFrom([]keys.Class{keys.AEAD, keys.DAEAD, keys.MAC, keys.PRF, keys.Signature, keys.Hybrid, keys.Streaming, keys.Deriver}).Draw(rt, "keyclass")
-			info := keys.DrawUsable(rt, "key", c)
+			// (the key type by the stratified choice, see pickIndex: a class-first SampledFrom gave the
+			// last types of the last classes well under one case per quick run)
+			typ := allTypesList[pickIndex(rt, "alltypes_type", len(allTypesList))]
+			c := keys.ClassOf(typ)
+			info := keys.DrawTypeUsable(rt, "key", typ)
+			caseSub = append(caseSub, info.Type)
 			if info.Type == "SlhDsa" && info.Fields["sig_type"] == "SMALL_SIGNATURE" {
+				evid.Add("skipped/alltypes_slhdsa_small_signature", 1)
 				rt.Skip("SLH-DSA s sets are too slow under the race detector")
 			}
 			if c == keys.Signature || c == keys.Hybrid {
@@ -543,6 +611,18 @@ func builders() []builder {
 		}},
 	}
 }
+
+// allTypesList: the key types of the eight primitive classes the "alltypes" builder serves.
+var allTypesList = func() []string {
+	var out []string
+	for _, c := range []keys.Class{keys.AEAD, keys.DAEAD, keys.MAC, keys.PRF, keys.Signature, keys.Hybrid, keys.Streaming, keys.Deriver} {
+		out = append(out, keys.Types(c)...)
+	}
+	return out
+}()
+
+// registryTypes: the key types of the "registry" builder.
+var registryTypes = append(append(keys.Types(keys.AEAD), keys.Types(keys.MAC)...), keys.Types(keys.DAEAD)...)
 
 // keyOps builds the ops of one key (any type of the key generator) through its class factory: the
 // primitives over h are shared and warmed, the ones over twin are first used inside the concurrent
@@ -645,20 +725,135 @@ func twice(mk func(tag string) []op) []op {
 // callCap bounds goroutines x calls for expensive key types (set by a builder, reset per case).
 var callCap int
 
-var logMu sync.Mutex
+// caseSub collects what the builders of the current case chose (key type, parameter set): it goes
+// into the evidence class and the replay file (reset per case).
+var caseSub []string
 
-func logConfig(cfg map[string]any) {
-	dir := os.Getenv("VERIF_REPLAY_OUT")
-	if dir == "" {
+// Stratified choices. In the quick tier a builder that serves many key types or parameter sets gets
+// a few dozen cases per run; an independent draw per case - even an unbiased one - leaves some of
+// the 24 types without a case in most runs. pickIndex therefore walks through the n items: the
+// calls under one label, of all shards together, visit the items in turn. The choice is not a
+// rapid draw, so it is written into the configuration of the case (cfg["choices"]): a replay takes
+// it from there (forcedChoices), and once a case has failed its choices are kept for every later
+// execution of the property in the process, which are rapid's shrinking runs of that case. In the
+// thorough tier (budget >> n) the choice is an equal-weight draw (gen.Uniform).
+var (
+	pickCounter   = map[string]int{}
+	caseChoices   []int // choices of the current case, in call order
+	forcedChoices []int // from a replay file or the failed case: consumed in call order
+	forcedNext    int
+)
+
+func pickIndex(rt *rapid.T, label string, n int) int {
+	var idx int
+	switch {
+	case evid.Tier() == "thorough":
+		idx = gen.Uniform(rt, label, n) // a draw: replays and shrinking runs reproduce it by themselves
+	case forcedChoices != nil:
+		if forcedNext < len(forcedChoices) {
+			idx = forcedChoices[forcedNext] % n
+		}
+		forcedNext++
+	default:
+		// position in one walk shared by all shards (shard s takes positions s, s+N, s+2N, ...: together
+		// the shards visit consecutive positions); each pass through the n items is shifted by one so
+		// that a shard does not stay on the same residues when N and n have a common factor
+		shard, nshards := int(evid.EnvInt("VERIF_SHARD", 0)), max(1, int(evid.EnvInt("VERIF_NSHARDS", 1)))
+		q := shard%nshards + pickCounter[label]*nshards
+		idx = (q + q/n) % n
+		pickCounter[label]++
+	}
+	caseChoices = append(caseChoices, idx)
+	return idx
+}
+
+// Replay of a C18 case. A race report ends the process on the spot (GORACE halt_on_error) and a
+// failing comparison is shrunk by rapid on other schedules, so neither leaves a usable rapid fail
+// file. Before the concurrent phase of every case the configuration is therefore written to
+// $VERIF_REPLAY_OUT (a directory: file replay-TestConcurrentUse.json in it; otherwise the file
+// itself); it is removed when the unit ends without failure. The file holds what determines the
+// case: rapid's seed of THIS case (every case of a rapid run has its own seed: base seed + 0 + 1 +
+// ... + index), the stratified choices, the tier (it selects the builder list), GOMAXPROCS, and,
+// for the reader, the drawn configuration (class, primitive, goroutines, calls, schedule, entropy).
+// VERIF_REPLAY=<file> makes TestConcurrentUse run exactly that case 50 times (objects rebuilt each
+// time, so that unwarmed twins are unwarmed each time) instead of a generated run.
+const replayRuns = 50
+
+type replayFile struct {
+	Unit       string         `json:"unit"`
+	CaseSeed   uint64         `json:"rapid_case_seed"`
+	RapidSeed  uint64         `json:"rapid_seed"`
+	CaseIndex  int            `json:"case_index"`
+	Choices    []int          `json:"choices"`
+	Tier       string         `json:"tier"`
+	Shard      int64          `json:"shard"`
+	NShards    int64          `json:"nshards"`
+	GoMaxProcs int            `json:"gomaxprocs"`
+	OnlyClass  string         `json:"only_class,omitempty"`
+	Failed     string         `json:"failed,omitempty"`
+	Config     map[string]any `json:"config"`
+}
+
+var (
+	logMu         sync.Mutex
+	replayWritten string // path of the file written by this process
+	replayFrozen  bool   // a case failed: its file stays
+)
+
+func replayOutPath() string {
+	out := os.Getenv("VERIF_REPLAY_OUT")
+	if out == "" {
+		return ""
+	}
+	if st, err := os.Stat(out); err == nil && st.IsDir() {
+		return filepath.Join(out, "replay-TestConcurrentUse.json")
+	}
+	return out
+}
+
+func writeReplay(rf *replayFile) {
+	path := replayOutPath()
+	if path == "" {
 		return
 	}
 	logMu.Lock()
 	defer logMu.Unlock()
-	b, _ := json.Marshal(cfg)
-	os.WriteFile(filepath.Join(dir, "current-config.json"), b, 0o644)
+	if replayFrozen {
+		return
+	}
+	b, _ := json.Marshal(rf)
+	if err := os.WriteFile(path, b, 0o644); err == nil {
+		replayWritten = path
+	}
+}
+
+func rapidSeedFlag() uint64 {
+	f := flag.Lookup("rapid.seed")
+	if f == nil {
+		return 0
+	}
+	v, _ := strconv.ParseUint(f.Value.String(), 10, 64)
+	return v
 }
 
 func TestConcurrentUse(t *testing.T) {
+	var replay *replayFile
+	if path := os.Getenv("VERIF_REPLAY"); path != "" {
+		b, err := os.ReadFile(path)
+		if err != nil {
+			t.Fatalf("VERIF_REPLAY: %v", err)
+		}
+		replay = &replayFile{}
+		if err := json.Unmarshal(b, replay); err != nil || replay.CaseSeed == 0 {
+			t.Fatalf("VERIF_REPLAY=%s is not a replay file of this unit (rapid_case_seed missing): %v", path, err)
+		}
+		// what selects the builder list and the choices must be as in the run that wrote the file
+		os.Setenv("VERIF_TIER", replay.Tier)
+		os.Setenv("VERIF_C18_CLASS", replay.OnlyClass)
+		if replay.GoMaxProcs > 0 {
+			runtime.GOMAXPROCS(replay.GoMaxProcs)
+		}
+	}
 	// in the quick tier paramsets is listed twice: its sets are equally likely, and the ECDSA / ECIES / RSA sets added
 	// later must not thin out the SLH-DSA / ML-DSA / composite / HPKE sets (seeded change C16c)
 	// (accessors and multikey, the cheapest builders, also twice: one key type out of 29, one class out of 9 per case)
@@ -673,14 +868,16 @@ func TestConcurrentUse(t *testing.T) {
 	// changes C16c and C18d, both package-level state).
 	single := bs
 	bs = append(bs, builder{"pair", func(rt *rapid.T) (string, []op) {
-		b1 := rapid.SampledFrom(single).Draw(rt, "first")
+		b1 := gen.Pick(rt, "first", single)
 		d1, o1 := b1.build(rt)
-		b2 := rapid.SampledFrom(single).Draw(rt, "second")
+		b2 := gen.Pick(rt, "second", single)
 		d2, o2 := b2.build(rt) // callCap: the smaller of the two builders' caps (capCalls only lowers it)
+		caseSub = []string{b1.class + "+" + b2.class}
 		return b1.class + " {" + d1 + "} with " + b2.class + " {" + d2 + "}", append(o1, renamed(o2, "@2")...)
 	}})
 	// developer aid (never set by the registered checks): VERIF_C18_CLASS=<class>[,<class>] restricts the draw
-	if only := os.Getenv("VERIF_C18_CLASS"); only != "" {
+	only := os.Getenv("VERIF_C18_CLASS")
+	if only != "" {
 		var sel []builder
 		for _, b := range bs {
 			if strings.Contains(","+only+",", ","+b.class+",") {
@@ -689,11 +886,18 @@ func TestConcurrentUse(t *testing.T) {
 		}
 		bs = sel
 	}
-	rapid.Check(t, func(rt *rapid.T) {
+	if rapidSeedFlag() == 0 && replay == nil {
+		// rapid would pick a seed of its own that the property cannot see: pick it here
+		flag.Set("rapid.seed", strconv.FormatUint(uint64(time.Now().UnixNano())|1, 10))
+	}
+	invocations := 0 // executions of the property in this rapid.Check (valid and discarded cases)
+	prop := func(rt *rapid.T) {
+		caseIndex := invocations
+		invocations++
 		entropy := rapid.Uint64().Draw(rt, "entropy")
 		detrand.Seed(entropy)
-		b := rapid.SampledFrom(bs).Draw(rt, "class")
-		callCap = 0
+		b := gen.Pick(rt, "class", bs)
+		callCap, caseSub, caseChoices, forcedNext = 0, nil, nil, 0
 		// input-size class of the case: messages / plaintexts of <= 300 bytes (boundary-biased), 1-4 KiB or 64 KiB
 		sizeClass = rapid.SampledFrom([]int{0, 0, 0, 0, 0, 0, 1, 1, 1, 2}).Draw(rt, "sizeclass")
 		desc, ops := b.build(rt)
@@ -704,8 +908,33 @@ func TestConcurrentUse(t *testing.T) {
 		}
 		yield := rapid.IntRange(0, 3).Draw(rt, "yield_every")
 		sched := rapid.SliceOfN(rapid.IntRange(0, len(ops)-1), 8, 32).Draw(rt, "schedule")
-		cfg := map[string]any{"class": b.class, "primitive": desc, "goroutines": g, "calls_each": k, "yield_every": yield, "schedule": sched, "entropy": entropy, "size_class": sizeClass}
-		logConfig(cfg)
+		sub := strings.Join(caseSub, "+")
+		cfg := map[string]any{"class": b.class, "sub": sub, "primitive": desc, "goroutines": g, "calls_each": k, "yield_every": yield, "schedule": sched, "entropy": entropy, "size_class": sizeClass}
+		base := rapidSeedFlag()
+		rf := &replayFile{Unit: "TestConcurrentUse", RapidSeed: base, CaseIndex: caseIndex, CaseSeed: base + uint64(caseIndex)*uint64(caseIndex+1)/2,
+			Choices: append([]int{}, caseChoices...), Tier: evid.Tier(), Shard: evid.EnvInt("VERIF_SHARD", 0), NShards: evid.EnvInt("VERIF_NSHARDS", 1),
+			GoMaxProcs: runtime.GOMAXPROCS(0), OnlyClass: only, Config: cfg}
+		if replay != nil {
+			rf.CaseSeed, rf.RapidSeed, rf.CaseIndex = replay.CaseSeed, replay.RapidSeed, replay.CaseIndex
+			if want, _ := replay.Config["primitive"].(string); want != desc || replay.Config["class"] != b.class {
+				rt.Fatalf("the replay file does not lead to the configuration it records (was the harness or the key generator changed since it was written?):\n recorded: %v %s\n rebuilt:  %s %s", replay.Config["class"], want, b.class, desc)
+			}
+		}
+		writeReplay(rf)
+		fail := func(format string, args ...any) {
+			// the file of THIS case stays (rapid's shrinking runs, which follow, do not overwrite it) and
+			// its stratified choices are kept for those runs
+			msg := fmt.Sprintf(format, args...)
+			if !replayFrozen {
+				rf.Failed = msg
+				writeReplay(rf)
+				replayFrozen = true
+				if forcedChoices == nil {
+					forcedChoices = append([]int{}, caseChoices...)
+				}
+			}
+			rt.Fatalf("%s", msg)
+		}
 		// sequential pass: every op on the shared (warmed) objects must hold when executed alone; the
 		// ops on the unwarmed twins are left out, their first execution is concurrent
 		var coldOps, leadOps []int
@@ -718,7 +947,7 @@ func TestConcurrentUse(t *testing.T) {
 				continue
 			}
 			if err := o.run(); err != nil {
-				rt.Fatalf("%s: %s fails sequentially: %v", desc, o.name, err)
+				fail("%s: %s fails sequentially: %v", desc, o.name, err)
 			}
 		}
 		// The deterministic entropy source sits behind a mutex: every random draw of a randomized op
@@ -745,7 +974,7 @@ func TestConcurrentUse(t *testing.T) {
 						}
 					}
 					if err := o.run(); err != nil {
-						errs <- fmt.Sprintf("goroutine %d call %d %s: %v", gi, i, o.name, err)
+						errs <- "goroutine " + strconv.Itoa(gi) + " call " + strconv.Itoa(i) + " " + o.name + ": " + err.Error()
 						return
 					}
 					if yield > 0 && i%yield == 0 {
@@ -762,11 +991,33 @@ func TestConcurrentUse(t *testing.T) {
 			all = append(all, e)
 		}
 		if len(all) > 0 {
-			rt.Fatalf("%s: concurrent calls returned results that differ from sequential execution (G=%d, K=%d):\n  %s", desc, g, k, strings.Join(all, "\n  "))
+			fail("%s: concurrent calls returned results that differ from sequential execution (G=%d, K=%d):\n  %s", desc, g, k, strings.Join(all, "\n  "))
 		}
 		evid.Add("concurrent_calls", int64(g*k))
-		evid.Case(fmt.Sprintf("%s/G=%s/size=%d", b.class, bucket(g), sizeClass), true, evid.NewH().S(desc).I(int64(g)).I(int64(k)).I(int64(entropy)).Sum(), func() any { return cfg })
-	})
+		// the class names the builder and what it chose (key type, parameter set ...) where it chooses;
+		// the size class is then a counter (the product would be thousands of classes)
+		class := fmt.Sprintf("%s/G=%s/size=%d", b.class, bucket(g), sizeClass)
+		if sub != "" {
+			class = fmt.Sprintf("%s/%s/G=%s", b.class, sub, bucket(g))
+		}
+		evid.Add("size_class/"+strconv.Itoa(sizeClass), 1)
+		evid.Case(class, true, evid.NewH().S(desc).I(int64(g)).I(int64(k)).I(int64(entropy)).Sum(), func() any { return cfg })
+	}
+	if replay != nil {
+		t.Logf("replaying case %d of the run with -rapid.seed=%d (rapid case seed %d, tier %q, GOMAXPROCS %d) %d times: %v", replay.CaseIndex, replay.RapidSeed, replay.CaseSeed, replay.Tier, replay.GoMaxProcs, replayRuns, replay.Config)
+		flag.Set("rapid.seed", strconv.FormatUint(replay.CaseSeed, 10))
+		flag.Set("rapid.checks", "1")
+		for i := 0; i < replayRuns && !t.Failed(); i++ {
+			forcedChoices, forcedNext, invocations = append([]int{}, replay.Choices...), 0, 0
+			replayFrozen = false
+			t.Run("replay-"+strconv.Itoa(i), func(t *testing.T) { rapid.Check(t, prop) })
+		}
+		return
+	}
+	rapid.Check(t, prop)
+	if !t.Failed() && replayWritten != "" {
+		os.Remove(replayWritten)
+	}
 }
 
 func bucket(g int) string {
